@@ -23,6 +23,9 @@ pub mod vss;
 #[cfg(feature = "viss")]
 pub mod viss;
 
+#[cfg(feature = "verif-hooks")]
+pub mod verif;
+
 use std::fmt::Write;
 
 use tracing::info;
